@@ -35,10 +35,20 @@ def main():
     fast = "--fast" in sys.argv
     sel = [a for a in sys.argv[1:] if not a.startswith("--")]
     patches = []
+    seen = set()
+    if "--tmp" not in sys.argv:
+        for d in sorted(glob.glob(os.path.join(VERIF, "seeded", "C*-*"))):
+            pid, k = os.path.basename(d).split("-")
+            if sel and ("%s:%s" % (pid, k)) not in sel and pid not in sel:
+                continue
+            patches.append((pid, k, os.path.join(d, "patch.diff"), os.path.join(d, "demo.py")))
+            seen.add((pid, k))
     for d in sorted(glob.glob("/tmp/seed/C*.out")):
         pid = os.path.basename(d)[:3]
         for pf in sorted(glob.glob(os.path.join(d, "patch_*.diff"))):
             k = re.search(r"patch_(\d+)", pf).group(1)
+            if (pid, k) in seen:
+                continue
             if sel and ("%s:%s" % (pid, k)) not in sel and pid not in sel:
                 continue
             patches.append((pid, k, pf, os.path.join(d, "demo_%s.py" % k)))
@@ -72,9 +82,11 @@ def main():
             rec["suite"] = out.strip().splitlines()[0] if out.strip() else ""
             rec["suite_ok"] = rc == 0 and "45 failed, 2433 passed" in out
         fired = {}
-        for i in range(1, 21):
-            p = "C%02d" % i
-            rc, out = sh("%s/check %s --root %s --no-write --no-canaries" % (VERIF, p, WT))
+        from concurrent.futures import ThreadPoolExecutor
+        props = ["C%02d" % i for i in range(1, 21)]
+        with ThreadPoolExecutor(max_workers=10) as ex:
+            outs = list(ex.map(lambda p_: sh("%s/check %s --root %s --no-write --no-canaries" % (VERIF, p_, WT)), props))
+        for p, (rc, out) in zip(props, outs):
             if rc != 0:
                 rules = sorted(set(re.findall(r"violation: rule=(\S+)", out)))
                 fired[p] = {"rc": rc, "rules": rules, "first": (re.findall(r"violation: (.*)", out) or re.findall(r"ANALYSIS-ERROR.*", out) or [""])[0][:300]}
